@@ -662,6 +662,13 @@ impl<'a, R: CharRead> Lexer<'a, R> {
                 return Err(self.located_error(ParserErrorKind::InvalidSingleQuotedCharacter(c)));
             }
         } else {
+            if !back_quote_char!(c) {
+                // a character that cannot start a token is consumed by the error it
+                // raises: otherwise every later read reports the same character again.
+                self.skip_char(c);
+                return Err(self.unexpected_char(c));
+            }
+
             match self.get_back_quoted_string() {
                 Ok(_) => return Err(self.located_error(ParserErrorKind::BackQuotedString)),
                 Err(e) => return Err(e),
@@ -975,6 +982,53 @@ impl<'a, R: CharRead> Lexer<'a, R> {
         }
     }
 
+    /// After an error inside a quoted item (opened by `q`), move behind its closing
+    /// quote: a backslash hides the next character, a doubled quote does not close,
+    /// a raw new line (never part of a quoted item) or the end of input stops.
+    fn skip_quoted_rest(&mut self, q: char) {
+        while let Some(Ok(c)) = self.reader.peek_char() {
+            if new_line_char!(c) {
+                return;
+            }
+
+            self.skip_char(c);
+
+            if backslash_char!(c) {
+                match self.reader.peek_char() {
+                    Some(Ok(d)) => self.skip_char(d),
+                    _ => return,
+                }
+            } else if c == q {
+                match self.reader.peek_char() {
+                    Some(Ok(d)) if d == q => self.skip_char(d),
+                    _ => return,
+                }
+            }
+        }
+    }
+
+    fn recover_quoted(&mut self, e: ParserError, q: char) -> ParserError {
+        if !e.is_unexpected_eof() && !matches!(e.kind, ParserErrorKind::BackQuotedString) {
+            self.skip_quoted_rest(q);
+        }
+
+        e
+    }
+
+    /// Resynchronisation after a lexical error: consume the rest of the offending
+    /// clause, through its end token (or to the end of input). Errors met on the way
+    /// are ignored; each of them consumes at least one character.
+    pub fn skip_to_end_token(&mut self) {
+        loop {
+            match self.next_token() {
+                Ok(token) if token.is_end() => return,
+                Ok(_) => {}
+                Err(e) if e.is_unexpected_eof() => return,
+                Err(_) => {}
+            }
+        }
+    }
+
     pub fn next_number_token(&mut self) -> Result<Token, ParserError> {
         self.scan_for_layout()?;
         let c = self.lookahead_char()?;
@@ -1082,7 +1136,10 @@ impl<'a, R: CharRead> Lexer<'a, R> {
                 }
 
                 if c == '"' {
-                    let s = self.char_code_list_token(c)?;
+                    let s = match self.char_code_list_token(c) {
+                        Ok(s) => s,
+                        Err(e) => return Err(self.recover_quoted(e, c)),
+                    };
 
                     return if let DoubleQuotes::Atom = self.machine_st.flags.double_quotes {
                         let atom = AtomTable::build_with(&self.machine_st.atom_tbl, &s);
@@ -1094,6 +1151,13 @@ impl<'a, R: CharRead> Lexer<'a, R> {
 
                 if c == '\u{0}' {
                     return Err(ParserError::unexpected_eof());
+                }
+
+                if single_quote_char!(c) || back_quote_char!(c) {
+                    return match self.name_token(c) {
+                        Ok(token) => Ok(token),
+                        Err(e) => Err(self.recover_quoted(e, c)),
+                    };
                 }
 
                 self.name_token(c)
